@@ -32,6 +32,8 @@ def cases(tier, seed):
         range_words = r.choice([16, 32, 64, 128])
         long_run = (k % 5 == 4)
         length_words = r.randint(range_words + 1, 3 * range_words) if long_run else r.randint(8, range_words)
+        if k % 13 == 12:
+            length_words = r.choice([1, 2, 3, range_words])      # corner lengths: a single word ... exactly the range
         c = dict(port=["native", "native", "native", "axi"][k % 4], dw=dw, base=r.randrange(0, 64) * range_words * wb,
                  range_bytes=range_words * wb, length=length_words * wb, random_data=bool((k // 2) % 2),
                  random_addr=bool((k // 7) % 3 == 2), corrupt=CORRUPT[k % len(CORRUPT)],
